@@ -1,18 +1,67 @@
 (** C15 — Timestamp restore never returns data from after the requested time.
-    Planner facts are those of Plan/Proofs.v (C08); the store-level statements
-    are in Store/TimeProofs.v. *)
+    Planner: Plan/Planner.v (CalcRestorePlan; the timestamp filter is [f_created f <? ts] on the
+    snapshot scan and on every level cursor), facts from Plan/Proofs.v (C08).
+    Store: Store/Ops.v — an L0 file is stamped at its sync, a compacted file carries its newest
+    input's header timestamp, a snapshot is stamped when taken; the file client reports the
+    header timestamp as CreatedAt (checked on every file by the correspondence run).
+    Hypothesis of the store-level statements: the clock read by sync / snapshot never goes back
+    ([hist_clock]; millisecond ties are allowed and handled by the strict [<]). *)
 From Coq Require Import List NArith.
-From LS Require Import Plan.Planner Plan.Spec Plan.Proofs.
+From LS Require Import Plan.Planner Plan.Spec Plan.Proofs Store.Files Store.Ops Store.Spec Store.TimeProofs.
+Import ListNotations.
 Open Scope N_scope.
 
+(** no file of the plan was created at or after T *)
 Theorem ts_no_future : forall fs tgt ts p,
   calc_restore_plan fs tgt ts = POk p -> ts <> 0 -> forall f, In f p -> f_created f < ts.
 Proof. exact Proofs.ts_no_future. Qed.
 Print Assumptions ts_no_future.
 
+(** a later T never yields an earlier state, and never fails where an earlier T succeeded *)
 Theorem ts_monotone : forall fs t1 t2 p1,
   wf_listing fs -> sorted_listing fs -> t1 <> 0 -> t1 <= t2 ->
   calc_restore_plan fs 0 t1 = POk p1 ->
   exists p2, calc_restore_plan fs 0 t2 = POk p2 /\ chain_end p1 <= chain_end p2.
 Proof. exact Proofs.ts_monotone. Qed.
 Print Assumptions ts_monotone.
+
+(** for any replica in which all L0 files 1..pos are present, L0 stamps are non-decreasing in
+    TXID and every higher-level file is stamped no earlier than the L0 file of its MaxTXID
+    ([ts_hyp]): the plan for T ends exactly at [expected_end] = max {k | stamp k < T}
+    ([expected_end_is_last_before]), and fails with ErrTxNotAvailable when there is none *)
+Theorem ts_exact_for_listing : forall pos r T, ts_hyp pos r -> T <> 0 ->
+  (0 < expected_end (r 0) T ->
+     exists p, calc_restore_plan (listing_of r) 0 T = POk p /\ chain_end p = expected_end (r 0) T) /\
+  (expected_end (r 0) T = 0 -> calc_restore_plan (listing_of r) 0 T = PErr ETxNotAvailable).
+Proof. exact TimeProofs.ts_exact. Qed.
+Print Assumptions ts_exact_for_listing.
+
+(** [ts_hyp] is an invariant of every retention-free history of Store/Ops.v
+    {sync, Compact L, Store.CompactDB L, Snapshot} under a monotone clock *)
+Theorem ts_hyp_invariant : forall ret nlv ops,
+  hist_clock 0 ops -> let st := run (init_state ret nlv) ops in ts_hyp (st_pos st) (st_rep st).
+Proof. exact TimeProofs.ts_hyp_invariant. Qed.
+Print Assumptions ts_hyp_invariant.
+
+Theorem ts_exact_when_l0_present : forall ret nlv ops T,
+  hist_clock 0 ops -> T <> 0 ->
+  let st := run (init_state ret nlv) ops in
+  let e := expected_end (st_rep st 0) T in
+  (0 < e -> exists p, calc_restore_plan (listing_of (st_rep st)) 0 T = POk p /\ chain_end p = e) /\
+  (e = 0 -> calc_restore_plan (listing_of (st_rep st)) 0 T = PErr ETxNotAvailable).
+Proof. exact TimeProofs.ts_exact_when_l0_present. Qed.
+Print Assumptions ts_exact_when_l0_present.
+
+Theorem expected_end_is_last_before : forall l T,
+  (forall f, In f l -> s_created f < T -> s_max f <= expected_end l T) /\
+  (expected_end l T = 0 \/ exists f, In f l /\ s_created f < T /\ s_max f = expected_end l T).
+Proof. exact TimeProofs.expected_end_spec. Qed.
+Print Assumptions expected_end_is_last_before.
+
+(** T at or before every stamp: ErrTxNotAvailable, never newer data *)
+Theorem ts_before_first_fails : forall fs T,
+  wf_listing fs -> sorted_listing fs -> T <> 0 ->
+  (forall f, In f (all_files fs) -> T <= f_created f) ->
+  calc_restore_plan fs 0 T = PErr ETxNotAvailable.
+Proof. exact TimeProofs.ts_before_first_fails. Qed.
+Print Assumptions ts_before_first_fails.
